@@ -273,7 +273,7 @@ theorem ldr3_frag_loop (sess : Nat) (cidb : Bytes) (conn : Conn) (p : Project) (
         rw [r2]
         dsimp only
         rw [hsplit, r3]
-        simp only [Gen.INSUFFICIENT_PACKETS, Option.some.injEq, Nat.reduceEqDiff, beq_iff_eq, if_false, r1, Bool.and_self,
+        simp only [Gen.INSUFFICIENT_PACKETS, Option.some.injEq, Nat.reduceEqDiff, beq_iff_eq, if_false, r4, r1, Bool.and_self,
           if_true, List.append_assoc, hacc, hall, hreply]
       · rw [hd1]; rfl
       · rw [hext1]; rfl
